@@ -1,6 +1,296 @@
-import StepModel.InstMgr
-namespace StepModel.InstMgr
+import StepModel.InstMgrRefine
+/-!
+# C13 — the instance manager stays consistent under any sequence of operations
 
-theorem C13_stub : count init = 0 := rfl
+Model: `StepModel/InstMgr.lean` (tied to `/repo` by `Generated/InstMgrGen.lean`, regenerated on every run, and by
+the in-process correspondence of `checks/c13.py`).  Helper lemmas: `InstMgrLemmas`, `InstMgrInv`, `InstMgrRefine`.
+Every theorem below quantifies over **all** operation histories (`ops : List Op`), with no bound on their length.
+
+API contract (operations outside it are `skipped` by both sides): indices `< InstanceCount()`, instance handles
+alive, `Delete(instance)` only for an instance that is in the manager.
+-/
+namespace StepModel.InstMgr
+open StepModel.Generated
+
+/-- a state the manager can reach from construction by any history -/
+def Reachable (s : State) : Prop := ∃ ops : List Op, s = run init ops
+
+/-- The representation invariant holds after every history. -/
+theorem C13_inv_reachable (ops : List Op) : Inv (run init ops) := inv_run inv_init ops
+
+/-- No operation, after any history, makes the C++ dereference a null/dangling node or double-free an instance. -/
+theorem C13_no_crash (ops : List Op) (op : Op) : (step (run init ops) op).2 ≠ .crash :=
+  (inv_step (C13_inv_reachable ops) op).2
+
+/-- **Refinement.** After any history, each operation changes the array of live instances exactly as the
+list reference `specStep` says (append at the end unless already present, erase by index / by instance,
+state change in place, empty on clear): so the count is the number of live instances and the i-th instance is
+the i-th survivor in insertion order. -/
+theorem C13_refines (ops : List Op) (op : Op) :
+    abs (step (run init ops) op).1 =
+      specStep (abs (run init ops)) (fun h => ((run init ops).heap h).isSome) op :=
+  abs_step (C13_inv_reachable ops) op
+
+theorem C13_count_is_live (ops : List Op) : count (run init ops) = (abs (run init ops)).length := by
+  simp [count, abs]
+
+theorem C13_instAt_is_live (ops : List Op) (i : Nat) :
+    instAt (run init ops) i = ((abs (run init ops))[i]?).map (·.1) := by
+  simp only [instAt, abs, List.getElem?_map]
+  cases (run init ops).nodes[i]? <;> rfl
+
+/-- The i-th instance reports index i (`GetIndex`). -/
+theorem C13_index_reported (ops : List Op) (i : Nat) (h : i < count (run init ops)) :
+    indexAt (run init ops) i = some (i : Int) := by
+  have I := C13_inv_reachable ops
+  unfold indexAt
+  unfold count at h
+  rw [List.getElem?_eq_getElem h]
+  simp [I.idx i h]
+
+/-- Look-up by file id returns exactly the live instance carrying that id, and nothing for any other id. -/
+theorem C13_find_exact (ops : List Op) (k : Int) :
+    let s := run init ops
+    (∀ n, findFileId s k = .node n ↔ (n ∈ s.nodes ∧ idOf s n.inst = some k)) ∧
+    (findFileId s k = .none ↔ ∀ n ∈ s.nodes, idOf s n.inst ≠ some k) ∧
+    findFileId s k ≠ .dangling := by
+  intro s
+  have I : Inv s := C13_inv_reachable ops
+  rcases findFileId_spec I k with ⟨n, hn, hid, hf⟩ | ⟨hall, hf⟩
+  · refine ⟨?_, ?_, by rw [hf]; simp⟩
+    · intro m
+      rw [hf]
+      constructor
+      · intro he; simp at he; subst he; exact ⟨hn, hid⟩
+      · rintro ⟨hm, hmid⟩
+        rw [I.node_eq_of_id hm hn hmid hid]
+    · rw [hf]
+      constructor
+      · intro he; simp at he
+      · intro hall; exact absurd hid (hall n hn)
+  · refine ⟨?_, ?_, by rw [hf]; simp⟩
+    · intro m
+      rw [hf]
+      constructor
+      · intro he; simp at he
+      · rintro ⟨hm, hmid⟩; exact absurd hmid (hall m hm)
+    · rw [hf]; simp; exact hall
+
+/-- No two live instances carry the same file id. -/
+theorem C13_ids_unique (ops : List Op) (a b : Node) (k : Int) :
+    let s := run init ops
+    a ∈ s.nodes → b ∈ s.nodes → idOf s a.inst = some k → idOf s b.inst = some k → a = b := by
+  intro s ha hb h1 h2
+  exact (C13_inv_reachable ops).node_eq_of_id ha hb h1 h2
+
+/-- The maximum id is never below a live id. -/
+theorem C13_max_ge_live (ops : List Op) (n : Node) (k : Int) :
+    let s := run init ops
+    n ∈ s.nodes → idOf s n.inst = some k → k ≤ s.maxFileId := by
+  intro s hn hk
+  exact (C13_inv_reachable ops).maxGe n hn k hk
+
+/-! ### automatically assigned ids -/
+theorem pushNode_max_ge (s : State) (h : Nat) (st : St) (k : Int) :
+    s.maxFileId ≤ (pushNode s h st k).maxFileId ∧ k ≤ (pushNode s h st k).maxFileId := by
+  rw [pushNode_max]; split <;> omega
+
+theorem appendFind_max {s1 : State} (I1 : Inv s1) {h : Nat} {id1 : Int} (st : St) :
+    s1.maxFileId ≤ (appendFind s1 id1 h st).1.maxFileId ∧
+    ∀ idx id, (appendFind s1 id1 h st).2 = .node idx id → id ≤ (appendFind s1 id1 h st).1.maxFileId := by
+  unfold appendFind
+  rcases findFileId_spec I1 id1 with ⟨n, hn, hnid, hf⟩ | ⟨hall, hf⟩
+  · rw [hf]
+    by_cases hnh : n.inst = h
+    · simp [hnh]
+    · simp only [hnh, if_false]
+      have h1 := pushNode_max_ge (renumber s1 h).1 h st (renumber s1 h).2
+      have h2 := nextFileIdVal_gt s1.maxFileId
+      rw [renumber_max] at h1
+      constructor
+      · omega
+      · intro idx id he
+        simp at he
+        rw [← he.2]; exact h1.2
+  · rw [hf]
+    have h1 := pushNode_max_ge s1 h st id1
+    constructor
+    · exact h1.1
+    · intro idx id he
+      simp at he
+      rw [← he.2]; exact h1.2
+
+/-- Between two emptyings `MaxFileId` never decreases, and it is at least every id an `Append` returned:
+so it bounds every id seen since the manager was last emptied. -/
+theorem C13_max_monotone (ops : List Op) (op : Op) (hc : op ≠ .clear) (hd : op ≠ .deleteAll) :
+    let s := run init ops
+    s.maxFileId ≤ (step s op).1.maxFileId ∧
+    ∀ idx id, (step s op).2 = .node idx id → id ≤ (step s op).1.maxFileId := by
+  intro s
+  have I : Inv s := C13_inv_reachable ops
+  cases op with
+  | clear => exact absurd rfl hc
+  | deleteAll => exact absurd rfl hd
+  | newInst h id name =>
+    simp only [step, newInst]
+    cases s.heap h <;> simp
+  | changeState i st =>
+    simp only [step, changeState]
+    cases s.nodes[i]? with
+    | none => simp
+    | some n => simp only; split <;> simp
+  | deleteNode i =>
+    simp only [step, deleteNode]
+    cases hg : s.nodes[i]? with
+    | none => simp
+    | some n =>
+      have := inv_deleteNodeCore I (List.mem_of_getElem? hg)
+      rcases List.getElem?_eq_some_iff.mp hg with ⟨hp, hpn⟩
+      rcases deleteNodeCore_eq I hp hpn with ⟨i', _, he⟩
+      simp only [he]
+      simp
+  | deleteInst h =>
+    simp only [step, deleteInst]
+    cases hh : s.heap h with
+    | none => simp
+    | some i =>
+      simp only
+      split
+      · rcases findFileId_spec I i.fileId with ⟨n, hn, hnid, hf⟩ | ⟨hall, hf⟩
+        · rw [hf]
+          rcases List.getElem_of_mem hn with ⟨p, hp, hpn⟩
+          rcases deleteNodeCore_eq I hp hpn with ⟨i', _, he⟩
+          simp only [he]
+          simp
+        · rw [hf]; simp
+      · simp
+  | append h st =>
+    simp only [step, append]
+    cases hh : s.heap h with
+    | none => simp
+    | some i0 =>
+      simp only
+      by_cases hz : i0.fileId = unassignedFileId
+      · simp only [hz, if_true]
+        have hfresh : ∀ n ∈ s.nodes, n.inst ≠ h := by
+          intro n hn he
+          apply I.nonzero n hn
+          simp [idOf, he, hh, hz]
+        have I1 := inv_renumber I hfresh
+        have := appendFind_max I1 (h := h) (id1 := (renumber s h).2) st
+        have h2 := nextFileIdVal_gt s.maxFileId
+        rw [renumber_max] at this
+        exact ⟨by omega, this.2⟩
+      · simp only [hz, if_false]
+        exact appendFind_max I st
+
+/-- An id handed out automatically (the instance came with the "unassigned" id, or with an id that a live
+instance already carries) is fresh: strictly above `MaxFileId` before the call — hence above every live id and
+every id seen since the manager was last emptied (`C13_max_monotone`, `C13_max_ge_live`) — and it is never the
+"unassigned" value itself. -/
+theorem C13_auto_id_fresh (ops : List Op) (h : Nat) (st : St) (i0 : Inst) :
+    let s := run init ops
+    s.heap h = some i0 →
+    (∀ n ∈ s.nodes, n.inst ≠ h) →
+    (i0.fileId = unassignedFileId ∨ ∃ n ∈ s.nodes, idOf s n.inst = some i0.fileId) →
+    ∃ id, (step s (.append h st)).2 = .node s.nodes.length id ∧ s.maxFileId < id ∧ id ≠ unassignedFileId ∧
+          idOf (step s (.append h st)).1 h = some id := by
+  intro s hh hfresh hauto
+  have I : Inv s := C13_inv_reachable ops
+  have hgt := nextFileIdVal_gt s.maxFileId
+  have hne := nextFileIdVal_ne_unassigned s.maxFileId
+  simp only [step, append, hh]
+  by_cases hz : i0.fileId = unassignedFileId
+  · simp only [hz, if_true]
+    have I1 := inv_renumber I hfresh
+    -- after renumbering nobody carries the new id
+    have hnone : ∀ n ∈ (renumber s h).1.nodes, idOf (renumber s h).1 n.inst ≠ some (renumber s h).2 := by
+      intro n hn he
+      rw [renumber_nodes] at hn
+      rw [renumber_idOf_ne s h (hfresh n hn), renumber_snd] at he
+      have := I.maxGe n hn _ he
+      omega
+    unfold appendFind
+    rcases findFileId_spec I1 (renumber s h).2 with ⟨n, hn, hnid, _⟩ | ⟨_, hf⟩
+    · exact absurd hnid (hnone n hn)
+    · rw [hf]
+      refine ⟨nextFileIdVal s.maxFileId, by simp [renumber_snd, renumber_nodes], hgt, hne, ?_⟩
+      rw [idOf_pushNode]
+      exact renumber_idOf_self s h (by simp [hh])
+  · simp only [hz, if_false]
+    rcases hauto with hz' | ⟨n0, hn0, hid0⟩
+    · exact absurd hz' hz
+    · unfold appendFind
+      rcases findFileId_spec I i0.fileId with ⟨n, hn, hnid, hf⟩ | ⟨hall, _⟩
+      · rw [hf]
+        have hnh : n.inst ≠ h := hfresh n hn
+        simp only [hnh, if_false]
+        refine ⟨nextFileIdVal s.maxFileId, by simp [renumber_snd, renumber_nodes], hgt, hne, ?_⟩
+        rw [idOf_pushNode]
+        exact renumber_idOf_self s h (by simp [hh])
+      · exact absurd hid0 (hall n0 hn0)
+
+/-- An explicit id that no live instance carries is kept. -/
+theorem C13_explicit_id_kept (ops : List Op) (h : Nat) (st : St) (i0 : Inst) :
+    let s := run init ops
+    s.heap h = some i0 → i0.fileId ≠ unassignedFileId →
+    (∀ n ∈ s.nodes, idOf s n.inst ≠ some i0.fileId) →
+    (step s (.append h st)).2 = .node s.nodes.length i0.fileId ∧
+      idOf (step s (.append h st)).1 h = some i0.fileId := by
+  intro s hh hz hfree
+  have I : Inv s := C13_inv_reachable ops
+  simp only [step, append, hh, hz, if_false]
+  unfold appendFind
+  rcases findFileId_spec I i0.fileId with ⟨n, hn, hnid, _⟩ | ⟨_, hf⟩
+  · exact absurd hnid (hfree n hn)
+  · rw [hf]
+    refine ⟨rfl, ?_⟩
+    rw [idOf_pushNode]; simp [idOf, hh]
+
+/-! ### look-up by entity name -/
+/-- `GetApplication_instance(name, start)` returns the first match at or after `start`, else nothing. -/
+theorem C13_byName_first (s : State) (name start : Nat) :
+    (∀ h, byName s name start = some h →
+        ∃ j, ∃ hj : j < s.nodes.length, start ≤ j ∧ (s.nodes[j]).inst = h ∧ hasName s name s.nodes[j] = true ∧
+          ∀ j', ∀ hj' : j' < s.nodes.length, start ≤ j' → j' < j → hasName s name s.nodes[j'] = false) ∧
+    (byName s name start = none →
+        ∀ j, ∀ hj : j < s.nodes.length, start ≤ j → hasName s name s.nodes[j] = false) := by
+  unfold byName
+  constructor
+  · intro h hb
+    cases hf : (s.nodes.drop start).find? (hasName s name) with
+    | none => simp [hf] at hb
+    | some n =>
+      simp [hf] at hb
+      rcases List.find?_eq_some_iff_getElem.mp hf with ⟨hp, i, hi, hin, hbefore⟩
+      have hi' : start + i < s.nodes.length := by simp at hi; omega
+      refine ⟨start + i, hi', by omega, ?_, ?_, ?_⟩
+      · rw [List.getElem_drop] at hin; rw [hin]; exact hb
+      · rw [List.getElem_drop] at hin; rw [hin]; exact hp
+      · intro j' hj' h1 h2
+        have := hbefore (j' - start) (by omega)
+        rw [List.getElem_drop] at this
+        have e : start + (j' - start) = j' := by omega
+        simp only [e] at this
+        simpa using this
+  · intro hb j hj hs
+    cases hf : (s.nodes.drop start).find? (hasName s name) with
+    | some n => simp [hf] at hb
+    | none =>
+      rw [List.find?_eq_none] at hf
+      have hm : s.nodes[j] ∈ s.nodes.drop start := by
+        rw [List.mem_iff_getElem]
+        refine ⟨j - start, by simp; omega, ?_⟩
+        rw [List.getElem_drop]
+        congr 1; omega
+      have := hf _ hm
+      simpa using this
+
+/-! ### the hypotheses are satisfiable: a concrete non-trivial history -/
+example : let s := run init [.newInst 0 0 1, .append 0 .complete, .newInst 1 1 2, .append 1 .new,
+                              .append 0 .complete, .deleteNode 0, .newInst 2 2 0, .append 2 .incomplete]
+    count s = 2 ∧ instAt s 0 = some 1 ∧ instAt s 1 = some 2 ∧ s.maxFileId = 3 ∧
+    idOf s 1 = some 2 ∧ idOf s 2 = some 3 := by
+  decide
 
 end StepModel.InstMgr
